@@ -1012,7 +1012,7 @@ def check_generic_shift_by_precision(ctx, F):
     ctx.extra['generic_shifts_by_precision'] = n
 
 
-def check_size_hint_arithmetic(ctx, F):
+def check_size_hint_arithmetic(ctx, F, file_suffix=None):
     """`Iterator::size_hint` of a caller's iterator is an arbitrary number: every unbounded std iterator (`0..`, `repeat`, `cycle`)
     reports a lower bound of usize::MAX.  An overflow-checked `+` / `*` on it panics in debug builds and wraps in release builds,
     where the function then carries on - arithmetic that is only "correct" because release builds wrap.  Rule: no overflow check
@@ -1024,6 +1024,8 @@ def check_size_hint_arithmetic(ctx, F):
         if b.promoted is not None or b.derived or '::tests::' in b.defpath or b.defpath.startswith(('pybindings', '<pybindings')) or b.dk not in ('Fn', 'AssocFn', 'Closure'):
             continue
         if not any((callee_def(t) or '').endswith('Iterator::size_hint') for _, t in b.calls()):
+            continue
+        if file_suffix is not None and not (b.file or '').endswith(file_suffix):
             continue
         # crate-local iterators forward their own size_hint from a field: only functions that take the iterator from a caller count
         if b.impl_trait == 'core::iter::Iterator':
@@ -1039,6 +1041,19 @@ def check_size_hint_arithmetic(ctx, F):
                     continue
                 if sym.contains(e['cond'], lambda x: isinstance(x, tuple) and x and x[0] == 'call' and str(x[1]).endswith('Iterator::size_hint')):
                     sites[e['span'].split('-')[0]] = e.get('msg')
+        # the *upper* bound is looser still: honest iterators (`take_while`, `filter`, `flat_map`) report usize::MAX or None for a
+        # handful of items, so an allocation sized by it dies with "capacity overflow" where the write should simply succeed
+        is_upper = lambda x: isinstance(x, tuple) and x and x[0] == 'proj' and x[2] == ('f', '1') and sym.contains(x[1], lambda y: isinstance(y, tuple) and y and y[0] == 'call' and str(y[1]).endswith('Iterator::size_hint'))
+        allocs = {}
+        for r in paths or []:
+            for e in r.events:
+                if e['kind'] == 'call' and str(e['callee']).split('::')[-1] in ('reserve', 'reserve_exact', 'with_capacity', 'resize', 'grow'):
+                    for a in (e.get('args_val') or e['args']):
+                        if isinstance(a, tuple) and sym.contains(a, is_upper):
+                            allocs[e['span'].split('-')[0]] = str(e['callee']).split('::')[-1]
+        if allocs:
+            where, what = sorted(allocs.items())[0]
+            ctx.bad('R9', 'the upper bound of a caller iterator\'s size_hint sizes no allocation', b.defpath, '`%s` is sized by the upper bound of a caller-supplied iterator\'s size_hint: `(0..u64::MAX).take_while(..)` reports an upper bound near usize::MAX for a few items, and the call panics with "capacity overflow" (or aborts) instead of writing them' % what, key='R9/size-hint-upper-allocation/' + b.defpath, loc=where)
         uses = sum(1 for _, t in b.calls() if (callee_def(t) or '').endswith('Iterator::size_hint'))
         n += 1
         key = 'R9/size-hint-arithmetic/' + b.defpath
@@ -1049,6 +1064,8 @@ def check_size_hint_arithmetic(ctx, F):
             ctx.bad('R9', role, b.defpath, '%d overflow-checked operation(s) (%s) on a size_hint of a caller-supplied iterator: for an unbounded iterator the bound is usize::MAX, so a debug build panics here while a release build wraps and carries on with the wrapped value' % (len(sites), msg), key=key, loc=where)
         else:
             ctx.ok('R9', role, b.defpath, '%d size_hint call(s); none of their results reaches a plain `+`, `-` or `*`' % uses, key=key)
+    if file_suffix is not None:
+        return
     ctx.extra['size_hint_users'] = n
     ctx.floor('R9', 'floor: functions that read a size_hint', 'crate', n, 4, 'only %d functions read the size_hint of an iterator' % n, key='R9/floor/size-hint-arithmetic')
 
@@ -1153,6 +1170,7 @@ def run(ctx):
     trusted_rows = check_sites(ctx, F)
     c13.check_precision_changers(ctx, F)
     c19.check_inferred_probability(ctx, F)
+    c19.check_float_table_monotone(ctx, F)     # the TRUSTED-DATA rows of the `_fast` constructors: the table they store unvalidated is monotone without trusting the float type parameter
     check_strict_producers(ctx, F)
     check_validators_fetch_once(ctx, F)
     check_const_shift_bounded(ctx, F)
